@@ -40,6 +40,10 @@ def mk_init(mem):
     def init():
         return dict(mem)
     return init
+def f_big(v, nbytes):
+    import builtins
+    builtins._vh_count = getattr(builtins, "_vh_count", 0) + 1
+    return (v, bytes([v % 251]) * nbytes)
 '''
 
 
@@ -85,6 +89,8 @@ def to_wire(req, g):
     t = req["t"]
     if t == "init":
         return {"init": True, "fn": g["mk_init"](dict(req["mem"])), "args": (), "kwargs": {}}
+    if t == "ok" and req.get("big"):
+        return {"fn": g["f_big"], "args": (req["v"], req["big"]), "kwargs": {}}
     if t == "ok":
         return {"fn": g["f_ok"], "args": (req["v"],), "kwargs": {}}
     if t == "raise":
@@ -101,6 +107,11 @@ def to_wire(req, g):
 
 
 def canon_reply(d):
+    if "result" in d and isinstance(d["result"], tuple) and len(d["result"]) == 2 and isinstance(d["result"][1], bytes):
+        v, blob = d["result"]            # f_big: the value counts when the payload arrived complete
+        if blob == bytes([v % 251]) * len(blob):
+            return {"result": v, "payload": len(blob)}
+        return {"result": "corrupt payload of %d bytes" % len(blob)}
     if "result" in d:
         return {"result": d["result"]}
     e = d.get("error")
@@ -196,6 +207,80 @@ def drive(seq, mode):
         ctxz.term()
 
 
+def drive_pipelined(seq):
+    """A real worker subprocess; ALL requests are sent before any reply is read (as tests/test_backend_serial.py does), some
+    calls return several MB.  Returns (replies in arrival order, worker ended, exit note)."""
+    import cloudpickle
+    import zmq
+
+    g = fresh_funcs()
+    ctxz = zmq.Context()
+    sock = ctxz.socket(zmq.PAIR)
+    port = sock.bind_to_random_port("tcp://*")
+    script = os.path.join(os.environ.get("VERIF_REPO", "/repo"), "executorlib", "backend", "interactive_serial.py")
+    proc = subprocess.Popen([sys.executable, script, "--host", "localhost", "--zmqport", str(port)],
+                            stdin=subprocess.DEVNULL, stdout=subprocess.DEVNULL, stderr=subprocess.DEVNULL)
+    replies = []
+    try:
+        for req in seq:
+            sock.send(cloudpickle.dumps(to_wire(req, g)))
+        nbear = sum(1 for r in seq if r["t"] in ("ok", "raise", "preset", "counter", "shutdown"))
+        tmo = 30000
+        while sock.poll(tmo):
+            replies.append(canon_reply(cloudpickle.loads(sock.recv())))
+            tmo = 30000 if len(replies) < nbear else 100
+        try:
+            rc = proc.wait(30)
+            ended, note = True, f"rc={rc}"
+        except subprocess.TimeoutExpired:
+            ended, note = False, "running"
+        return replies, ended, note
+    finally:
+        if proc.poll() is None:
+            proc.kill()
+        sock.close(linger=0)
+        ctxz.term()
+
+
+def gen_pipelined(rng, with_counter):
+    """A sequence ending with its only shutdown; one to three calls return 1-16 MB, the last call before the shutdown often 32-96 MB."""
+    seq = [r for r in gen_seq(rng, with_counter) if r["t"] != "shutdown"]
+    oks = [r for r in seq if r["t"] == "ok"]
+    if not oks or rng.random() < 0.7:
+        seq.append({"t": "ok", "v": 3000 + len(seq)})
+        oks.append(seq[-1])
+    for r in rng.sample(oks, k=min(len(oks), rng.choice([1, 1, 2, 3]))) + ([seq[-1]] if seq[-1]["t"] == "ok" else []):
+        r["big"] = rng.choice([1, 4, 16]) * (1 << 20)
+    if seq[-1]["t"] == "ok":
+        seq[-1]["big"] = rng.choice([32, 64, 96]) * (1 << 20)   # more than the socket buffers hold when the shutdown request follows
+    seq.append({"t": "shutdown"})
+    return seq
+
+
+def pipelined_part(ctx: Ctx, m, diffs):
+    n = 6 if ctx.tier == "quick" else 60
+    plan = [gen_pipelined(ctx.rng, bool(i % 2)) for i in range(n)]
+    model_out = m.ask_many([dict(op="wire_serve", reqs=[{k: v for k, v in r.items() if k != "big"} for r in s]) for s in plan])
+    from concurrent.futures import ThreadPoolExecutor
+
+    with ThreadPoolExecutor(max_workers=3) as pool:
+        results = list(pool.map(drive_pipelined, plan))
+    for seq, mo, (replies, ended, note) in zip(plan, model_out, results):
+        exp = []
+        for (i, rep) in expected_of(mo, seq):
+            if seq[i].get("big") and "result" in rep:
+                rep = dict(rep, payload=seq[i]["big"])
+            exp.append(rep)
+        ctx.case({"mode": "pipelined", "seq": seq})
+        ctx.count("mode.pipelined")
+        ctx.count("req.big", sum(1 for r in seq if r.get("big")))
+        if replies != exp:
+            diffs.append({"kind": "transcript", "mode": "pipelined", "seq": seq, "impl": replies, "model": exp})
+        elif not ended or note != "rc=0":
+            diffs.append({"kind": "worker_exit_code", "mode": "pipelined", "seq": seq, "impl": note, "model": "rc=0"})
+    return len(plan)
+
+
 def body(ctx: Ctx):
     m = ctx.model
     n_thread = 250 if ctx.tier == "quick" else 3000
@@ -240,6 +325,7 @@ def body(ctx: Ctx):
             diffs.append({"kind": "worker_not_exited_after_ack", "mode": mode, "seq": seq, "impl": note, "model": "exited"})
         elif mode == "process" and ended_expected and note != "rc=0":
             diffs.append({"kind": "worker_exit_code", "mode": mode, "seq": seq, "impl": note, "model": "rc=0"})
+    npipe = pipelined_part(ctx, m, diffs)
     for need in ("seq.call_before_first_init", "seq.several_inits", "seq.requests_after_shutdown", "req.raise", "req.other"):
         if ctx.distribution.get(need, 0) < 5:
             raise InfraError(f"generator too thin: {need}={ctx.distribution.get(need, 0)}")
@@ -252,9 +338,9 @@ def body(ctx: Ctx):
         ctx.violation({"kind": d["kind"], "failing_input": True},
                       {"what": "reply transcript of the real worker differs from the SPEC transcript (C17.one_reply_each)", **d})
     return {
-        "rule": "request sequences of length 1-13 over {init(mem), ok call, raising call, call using a preset, unknown request (4 shapes), shutdown} with shutdown possibly in the middle; each run on a real interactive_serial.main over a zmq PAIR socket (in-thread; a smaller number as real subprocesses incl. an interpreter-global counter); non-trivial = length >= 2; distinct = sha1 of (mode, sequence)",
+        "rule": "request sequences of length 1-13 over {init(mem), ok call, raising call, call using a preset, unknown request (4 shapes), shutdown} with shutdown possibly in the middle; each run on a real interactive_serial.main over a zmq PAIR socket (in-thread; a smaller number as real subprocesses incl. an interpreter-global counter; plus pipelined runs on subprocess workers: the whole sequence, with calls returning 1-96 MB and the shutdown behind them, is sent before any reply is read); non-trivial = length >= 2; distinct = sha1 of (mode, sequence)",
         "differences": len(diffs),
-        "traces_validated_against_impl": len(results),
+        "traces_validated_against_impl": len(results) + npipe,
         "ast_hashes": ast_hashes(ANCHORS),
         "trusted_base_extra": ["zmq PAIR socket as a reliable FIFO; silence is observed by a 25 ms poll after each non-reply-bearing request and by the position of every later reply"],
     }
